@@ -76,9 +76,22 @@ PureV(e) ==
   ELSE Clause(e.before # e.after, "C16_InputsUnchanged")
        \cup Clause(Rng(e.ids_in) \cap Rng(e.ids_out) # {}, "C16_NoAliasing")
 
+(* law events carry the outcomes of two or more REAL computations that the property says are equal *)
+NormStars(ps) == [i \in DOMAIN ps |-> IF ps[i].k = "var" THEN [ps[i] EXCEPT !.n = "*"]
+                                      ELSE IF ps[i].k = "vkw" THEN [ps[i] EXCEPT !.n = "**"] ELSE ps[i]]
+IsSubseq(a, b) == \E f \in [DOMAIN a -> DOMAIN b] :
+                     /\ \A x, y \in DOMAIN a : x < y => f[x] < f[y]
+                     /\ \A x \in DOMAIN a : a[x] = b[f[x]]
+SameBy(a, b, cmp) ==
+  CASE cmp = "ps"        -> a.tag = b.tag /\ (a.tag = "sig" => a.ps = b.ps)
+    [] cmp = "all"       -> a.tag = b.tag /\ (a.tag = "sig" => (a.ps = b.ps /\ a.src = b.src /\ a.depth = b.depth))
+    [] cmp = "starnames" -> a.tag = b.tag /\ (a.tag = "sig" => NormStars(a.ps) = NormStars(b.ps))
+    [] cmp = "subseq"    -> (a.tag = "sig" /\ b.tag = "sig") => IsSubseq(a.ps, b.ps)     \* a only removes parameters of b
+    [] cmp = "params"    -> (a.tag = "sig" /\ b.tag = "sig") => a.ps = b.ps
 LawV(e) ==
   IF ~W("LAW") THEN {}
-  ELSE Clause(\E i, j \in DOMAIN e.results : ~SameOutcome(e.results[i], e.results[j], e.withprov), e.law)
+  ELSE IF e.pre = "roleconsistent" /\ ~RoleConsistent(PsOf(e.ins)) THEN {}
+  ELSE Clause(\E i, j \in DOMAIN e.results : i < j /\ ~SameBy(e.results[i], e.results[j], e.cmp), e.law)
 
 Verdict(e) ==
   IF e.op = "law" THEN LawV(e)
